@@ -96,6 +96,15 @@ def conc(c, v):
     return v if isinstance(v, int) else c.concretize(v)
 
 
+def _dec(c, n):
+    """decimal digits of a port number as bytes; the number of digits is fixed by the job's range"""
+    if not c.symbolic or isinstance(n, int):
+        return str(n).encode()
+    nd = len(str(n.hi))
+    assert len(str(max(n.lo, 0))) == nd
+    return V.SymBytes([((n // 10 ** (nd - 1 - i)) % 10) + 48 for i in range(nd)])
+
+
 class DC:
     """reference domain controller: endpoint mapper on 135, ISD_KEY interface on `port`"""
 
@@ -190,7 +199,7 @@ class DC:
             tr = refs.cat(bytes([9, 6, 0, 0, 0, 0, 0, 0]), stok)
             ack_auth = 4
         pt = 12 if ptype == 11 else 15
-        sec_addr = (str(conn.port) + "\0").encode() if ptype == 11 else b""
+        sec_addr = refs.cat(_dec(self.c, self.port if not truth(conn.port == 135) else 135), b"\0") if ptype == 11 else b""  # the port the server listens on, in decimal
         body = refs.cat(refs.le(5840, 2), refs.le(5840, 2), refs.le(0x1234, 4), refs.le(len(sec_addr), 2), sec_addr, bytes(-(2 + len(sec_addr)) % 4), refs.le(len(results), 4),
                         *[refs.cat(refs.le(r[0], 2), refs.le(r[1], 2), r[2], refs.le(r[3], 4)) for r in results])
         n = 16 + len(body) + len(tr)
@@ -428,28 +437,28 @@ def _params(tier):
     out = []
     kinds = ["seed", "DH", "ECDH_P256", "ECDH_P384"]
     if tier == "quick":
-        out.append(dict(op="unprotect", hash_name="SHA512", reply_kind="seed", sid=1, rk=True, pad=0))
-        out.append(dict(op="protect", hash_name="SHA256", reply_kind="seed", sid=0, rk=False, pad=4))
-        out.append(dict(op="protect", hash_name="SHA1", reply_kind="ECDH_P256", sid=2, rk=True, pad=8))
-        out.append(dict(op="protect", hash_name="SHA384", reply_kind="DH", sid=3, rk=False, pad=12))
-        out.append(dict(op="protect", hash_name="SHA512", reply_kind="seed", sid=4, rk=True, pad=0))
+        out.append(dict(op="unprotect", hash_name="SHA512", reply_kind="seed", sid=1, rk=True, pad=0, digits=5))
+        out.append(dict(op="protect", hash_name="SHA256", reply_kind="seed", sid=0, rk=False, pad=4, digits=4))
+        out.append(dict(op="protect", hash_name="SHA1", reply_kind="ECDH_P256", sid=2, rk=True, pad=8, digits=3))
+        out.append(dict(op="protect", hash_name="SHA384", reply_kind="DH", sid=3, rk=False, pad=12, digits=2))
+        out.append(dict(op="protect", hash_name="SHA512", reply_kind="seed", sid=4, rk=True, pad=0, digits=1))
         return out
     for i, h in enumerate(HASHES):
         for j, k in enumerate(kinds):
-            out.append(dict(op="protect", hash_name=h, reply_kind=k, sid=(i + j) % 5, rk=bool((i + j) % 2), pad=4 * ((i + j) % 4)))
+            out.append(dict(op="protect", hash_name=h, reply_kind=k, sid=(i + j) % 5, rk=bool((i + j) % 2), pad=4 * ((i + j) % 4), digits=1 + (i + 2 * j) % 5))
         for s in range(5):
-            out.append(dict(op="unprotect", hash_name=h, reply_kind="seed", sid=s, rk=True, pad=4 * ((i + s) % 4)))
+            out.append(dict(op="unprotect", hash_name=h, reply_kind="seed", sid=s, rk=True, pad=4 * ((i + s) % 4), digits=1 + (i + s) % 5))
     return out
 
 
 @harness(P, per_job=True, params=_params, max_steps=6000000, raises=(ScalarOutOfRange,),
          bounds="one online unprotect (blob at a solver-chosen position (L1,L2) of a 3x3 corner of the lattice incl. L2=31 and L1=0, seed-key reply) or protect (DC 'now' at a listed "
          "position; seed-key reply or DH / ECDH_P256 / ECDH_P384 public-key reply; root key id given or not) against the reference DC, run through the sync API and the async API in the same "
-         "path; 4 hashes; 5 SID shapes (SD lengths with different residues mod 8); domain name length chosen by the DC so that the sealed reply needs 0 / 4 / 8 / 12 bytes of auth padding; endpoint-mapper port symbolic 16-bit (not 135); 2 authentication legs; an ephemeral EC scalar outside [1, n-1] makes the EC library raise ValueError (allowed)",
+         "path; 4 hashes; 5 SID shapes (SD lengths with different residues mod 8); domain name length chosen by the DC so that the sealed reply needs 0 / 4 / 8 / 12 bytes of auth padding; ISD_KEY port symbolic over every 16-bit port with the job's number of decimal digits (1..5; not 135), echoed by the DC as the bind_ack secondary address; 2 authentication legs; an ephemeral EC scalar outside [1, n-1] makes the EC library raise ValueError (allowed)",
          outside="other positions (C02 covers the derivation for every position), other numbers of authentication legs (C15), fragmented replies (C14)",
          must_reach=("the DC saw a conforming conversation", "the request names exactly the key the blob / the caller asked for", "result is correct", "sync and async conduct the same conversation"))
-def online(c, op, hash_name, reply_kind, sid, rk, pad):
-    port = c.int("isd_key_port", 1, 65535)
+def online(c, op, hash_name, reply_kind, sid, rk, pad, digits):
+    port = c.int("isd_key_port", max(1, 10 ** (digits - 1)), min(65535, 10**digits - 1))  # every port with the job's number of decimal digits
     c.assume(port != 135)  # 135 is the endpoint mapper itself
     lo, _ = e2e.window(361, 9, 6, -5, -5)
     sidstr = e2e.SIDS[sid]
